@@ -322,6 +322,51 @@ Definition validate_prevout (tx : bytes) : bool :=
     end
   end.
 
+(* ExtractCoinbaseOutFromCoinbaseTx: everything after the first input's sequence (outputs + locktime); None = nil.
+   Seeking past the end succeeds, so a transaction that ends inside the sequence yields the empty slice. *)
+Definition extract_coinbase_out (tx : bytes) : option bytes :=
+  match read_varint (skipn 4 tx) with
+  | None => None
+  | Some (_, r1) =>
+    match read_varint (skipn 36 r1) with
+    | None => None
+    | Some (n, r2) =>
+      if len r2 <? n then None
+      else Some (skipn 4 (skipn (Z.to_nat n) r2))
+    end
+  end.
+
+(* ------------------------------------------------------------------ the signed template of an AuxPoW *)
+
+(* core/types/auxpow.go type AuxPow as received: every field that AuxPow.ProtoEncode writes, i.e. everything that is
+   hashed into the post-fork identity WorkObjectHeader.Hash() = blake3(proto(AuxPow)).  af_donor = the serialised donor
+   header (what the proof of work is computed on); prev / version / bits / height are read from it (trusted accessors,
+   observed).  af_aux2 = None: nil slice (field absent on the wire); Some []: present and empty. *)
+Record auxfull := mkAuxFull {
+  af_powid : Z; af_donor : bytes; af_prev : bytes; af_version : Z; af_bits : Z; af_height : Z;
+  af_aux2 : option bytes; af_tx : bytes; af_branch : list bytes; af_sig : bytes }.
+
+(* type AuxTemplate: what the MuSig2 signature is verified over (Hash() clears only t_sigs) *)
+Record template := mkTmpl {
+  t_powid : Z; t_prev : bytes; t_version : Z; t_bits : Z; t_aux2 : option bytes; t_sigtime : Z; t_height : Z;
+  t_out : option bytes; t_branch : list bytes; t_sigs : bytes }.
+
+Definition aux2_norm (a : option bytes) : bytes := match a with None => [] | Some x => x end.
+
+(* auxpow.go AuxPow.ConvertToTemplate, statement by statement *)
+Definition template_of (a : auxfull) : template :=
+  let ss := match extract_script_sig (af_tx a) with Some s => s | None => [] end in
+  mkTmpl (af_powid a) (af_prev a) (af_version a) (af_bits a)
+    (Some (aux2_norm (af_aux2 a)))                                   (* nil -> empty, for EVERY pow id *)
+    (match extract_sig_time ss with Some t => t | None => 0 end)
+    (if af_powid a =? powid_kawpow then af_height a
+     else match extract_height ss with Some h => h | None => 0 end)
+    (extract_coinbase_out (af_tx a)) (af_branch a) (af_sig a).
+
+(* the signed message: the template without its signature *)
+Definition template_msg (t : template) : template :=
+  mkTmpl (t_powid t) (t_prev t) (t_version t) (t_bits t) (t_aux2 t) (t_sigtime t) (t_height t) (t_out t) (t_branch t) [].
+
 (* CalculateMerkleSlot: uint32 arithmetic *)
 Definition u32 (x : Z) : Z := x mod 2 ^ 32.
 Definition merkle_slot (chain nonce size : Z) : Z :=
@@ -566,7 +611,9 @@ Inductive case_body :=
          (aux : option auxpow) (o : verdict)
 (* a history of ComputePowHash calls on ONE real engine instance (kind 1 = kawpow, otherwise progpow), oldest first:
    o = what the engine answered (None = error) *)
-| CEngine (kind : Z) (kt : ktable) (qs : list pquery) (o : list (option bytes)).
+| CEngine (kind : Z) (kt : ktable) (qs : list pquery) (o : list (option bytes))
+(* AuxPow.ConvertToTemplate on a received AuxPoW: o = the template's getters *)
+| CTmpl (a : auxfull) (o : template).
 
 Definition case := (N * case_body)%type.
 
@@ -611,6 +658,17 @@ Definition ozz_eqb (a b : option (Z * Z)) : bool :=
   | _, _ => false
   end.
 
+Fixpoint blist_eqb (a b : list bytes) : bool :=
+  match a, b with
+  | [], [] => true
+  | x :: a', y :: b' => bytes_eqb x y && blist_eqb a' b'
+  | _, _ => false
+  end.
+Definition template_eqb (a b : template) : bool :=
+  (t_powid a =? t_powid b) && bytes_eqb (t_prev a) (t_prev b) && (t_version a =? t_version b) && (t_bits a =? t_bits b)
+  && obytes_eqb (t_aux2 a) (t_aux2 b) && (t_sigtime a =? t_sigtime b) && (t_height a =? t_height b)
+  && obytes_eqb (t_out a) (t_out b) && blist_eqb (t_branch a) (t_branch b) && bytes_eqb (t_sigs a) (t_sigs b).
+
 Definition body_ok (c : case_body) : bool :=
   match c with
   | CSeal e h o => seal_verdict_eqb (verify_seal e h) o
@@ -632,6 +690,7 @@ Definition body_ok (c : case_body) : bool :=
   | CEngine kind kt qs o =>
       let k := if kind =? 1 then EKawpow else EProgpow in
       oblist_eqb (engine_run (fun x => x) (klookup kt) (key_material k) qs) o
+  | CTmpl a o => template_eqb (template_of a) o
   end.
 
 Definition case_ok (c : case) : bool := body_ok (snd c).
